@@ -19,6 +19,7 @@ import CtrlVerif.Lemmas.Interconnect
 import CtrlVerif.Lemmas.ICOps
 import CtrlVerif.Props.C02
 import Mathlib.Algebra.Field.Rat
+import Mathlib.Algebra.Ring.GeomSum
 import Mathlib.LinearAlgebra.Matrix.Notation
 import Mathlib.Tactic.FinCases
 
@@ -868,6 +869,231 @@ theorem opFeedback_linear (m p : Nat) (sign : K) (G₁ : SS σ₁ (Fin m) (Fin p
   exact linearIC_feedback G₁ G₂ sign E hE
 
 end operators
+
+/-! ## Part 5 — explicit gains (a zero included), evaluation at a point, discrete-time runs -/
+
+section gains
+
+variable {K : Type} [Field K] [DecidableEq K]
+
+/-- an explicitly given gain is the gain of the parsed spec — whatever its value, `0` included
+(the default `1` is for an *omitted* gain only). -/
+theorem explicit_gain_kept (sigs : List SysSig) (d : Dict) (sys : SysRef) (sig : SigRef) (g : K)
+    (si : Nat) (idxs : List Nat) (g' : K)
+    (h : parseSpec sigs d (.mk sys false sig false (some g)) = .ok (si, idxs, g')) : g' = g := by
+  simp only [parseSpec, gainConflict, gainOf] at h
+  split at h
+  · cases h
+  · split at h
+    · cases h
+    · split at h
+      · cases h
+      · split at h
+        · cases h
+        · split at h
+          · cases h
+          · injection h with h
+            simp only [Prod.mk.injEq] at h
+            simpa using h.2.2.symm
+
+/-- … and it differs from the omitted gain exactly when it is not `1`: `(sys, sig, 0)` is not
+`(sys, sig)`. -/
+theorem explicit_zero_ne_default (sigs : List SysSig) (d : Dict) (sys : SysRef) (sig : SigRef)
+    (si : Nat) (idxs : List Nat) (g' : K)
+    (h : parseSpec sigs d (.mk sys false sig false (some (0 : K))) = .ok (si, idxs, g')) :
+    parseSpec sigs d (.mk sys false sig false (none : Option K)) = .ok (si, idxs, 1) ∧ g' = 0 := by
+  have hg := explicit_gain_kept sigs d sys sig 0 si idxs g' h
+  subst hg
+  refine ⟨?_, rfl⟩
+  simp only [parseSpec, gainConflict, gainOf] at h ⊢
+  split at h
+  · cases h
+  · split at h
+    · cases h
+    · rename_i si' hs
+      split at h
+      · cases h
+      · rename_i S hS
+        split at h
+        · cases h
+        · rename_i ix hix
+          split at h
+          · cases h
+          · rename_i hbad
+            injection h with h
+            simp only [Prod.mk.injEq] at h
+            simp [hs, hS, hix, hbad, h.1, h.2.1]
+
+/-- entries of gain zero contribute nothing to a map: a source listed with gain `0` may as well be
+left out. -/
+theorem toMat_zero_gain (r c : Nat) (es₁ zs es₂ : List (Entry K)) (hz : ∀ e ∈ zs, e.2.2 = 0) :
+    toMat r c (es₁ ++ zs ++ es₂) = toMat r c (es₁ ++ es₂) := by
+  have h0 : toMat r c zs = 0 := by
+    ext i j
+    simp only [toMat, Matrix.zero_apply]
+    apply List.sum_eq_zero
+    intro x hx
+    obtain ⟨e, he, rfl⟩ := List.mem_map.1 hx
+    exact hz e (List.mem_filter.1 he).1
+  rw [toMat_append, toMat_append, toMat_append, h0, add_zero]
+
+/-- a connection source with an explicit zero gain yields zero-gain entries only. -/
+theorem connPart_zero_gain (sigs : List SysSig) (iidx : List Nat) (sys : SysRef) (sig : SigRef)
+    (es : List (Entry K))
+    (h : connPart sigs iidx (.mk sys false sig false (some (0 : K))) = .ok es) :
+    ∀ e ∈ es, e.2.2 = 0 := by
+  unfold connPart at h
+  split at h
+  · cases h
+  · rename_i oidx g hp
+    have hg : g = 0 := by
+      unfold parseOutputSpec at hp
+      split at hp
+      · rename_i si idxs g₀ hps
+        injection hp with hp
+        simp only [Prod.mk.injEq] at hp
+        rw [← hp.2]
+        exact explicit_gain_kept sigs .output sys sig 0 si idxs g₀ hps
+      · split at hp
+        · rename_i si idxs g₀ hps
+          injection hp with hp
+          simp only [Prod.mk.injEq] at hp
+          rw [← hp.2]
+          exact explicit_gain_kept sigs .input sys sig 0 si idxs g₀ hps
+        · cases hp
+    split at h
+    · cases h
+    · injection h with h
+      subst h
+      intro e he
+      obtain ⟨ij, _, rfl⟩ := List.mem_map.1 he
+      exact hg
+
+end gains
+
+section evaluation
+
+variable {K : Type*} [Field K]
+variable {σ ι o w z κ : Type*}
+variable [Fintype σ] [DecidableEq σ] [Fintype ι] [DecidableEq ι] [Fintype o] [Fintype w]
+
+/-- `dynamics` / `output` of the interconnection (`Wiring.eval`, any batch of points): what is
+returned are `_rhs` and `_out` at a solution `U` of the flow equations. -/
+theorem eval_sound [DecidableEq (Matrix ι κ K)] (W : Wiring ι o w z K) (G : SS σ ι o K)
+    (nsys : Nat) (Xs : Matrix σ κ K) (Ws : Matrix w κ K) (F : Matrix σ κ K) (H : Matrix z κ K)
+    (h : W.eval G nsys Xs Ws = .ok (F, H)) :
+    ∃ U, W.step G Xs Ws U = U ∧ F = Wiring.rhs G Xs U ∧ H = W.out G Xs U := by
+  unfold Wiring.eval at h
+  cases hs : staticLoop (W.step G Xs Ws) (nsys + 1) (W.M * Ws) with
+  | error e => rw [hs] at h; cases h
+  | ok U =>
+    rw [hs] at h
+    simp only [Except.map] at h
+    injection h with h
+    injection h with h1 h2
+    exact ⟨U, staticLoop_fixed _ _ _ _ hs, h1.symm, h2.symm⟩
+
+/-- … hence the closed form: at **every** point `(x, w)` (a column of `Xs`, `Ws`) the value is
+`A x + B w`, `C x + D w` with the matrices of `linearIC` — the same matrices `linearize` reads
+off at the unit perturbations.  The field elements `x`, `w` are what the caller's numbers denote;
+nothing depends on the number type they were held in. -/
+theorem eval_closed_form [DecidableEq (Matrix ι κ K)] (W : Wiring ι o w z K) (G : SS σ ι o K)
+    (nsys : Nat) (Xs : Matrix σ κ K) (Ws : Matrix w κ K) (E : Matrix ι ι K)
+    (hE : E * (1 - W.Kc * G.D) = 1) (F : Matrix σ κ K) (H : Matrix z κ K)
+    (h : W.eval G nsys Xs Ws = .ok (F, H)) :
+    F = (W.linearIC G E).A * Xs + (W.linearIC G E).B * Ws ∧
+    H = (W.linearIC G E).C * Xs + (W.linearIC G E).D * Ws := by
+  obtain ⟨U, hU, rfl, rfl⟩ := eval_sound W G nsys Xs Ws F H h
+  exact linearize_closed_form W G Xs Ws E hE U hU
+
+/-- for an acyclic feedthrough structure the geometric sum inverts `I - Kc D`. -/
+theorem geom_inverse (N : Matrix ι ι K) (n : Nat) (hN : N ^ n = 0) :
+    (∑ j ∈ Finset.range n, N ^ j) * (1 - N) = 1 := by
+  rw [geom_sum_mul_neg, hN, sub_zero]
+
+/-- completeness: with acyclic feedthrough over at most `nsys` levels the evaluation does not
+raise, at any point, and returns the closed form with `E = Σ_{j<nsys} (Kc D)^j`. -/
+theorem eval_complete [DecidableEq (Matrix ι κ K)] (W : Wiring ι o w z K) (G : SS σ ι o K)
+    (nsys : Nat) (Xs : Matrix σ κ K) (Ws : Matrix w κ K) (lvl : ι → Nat)
+    (hacyc : ∀ i j, (W.Kc * G.D) i j ≠ 0 → lvl j < lvl i) (hb : ∀ i, lvl i < nsys) :
+    W.eval G nsys Xs Ws = .ok
+      ((W.linearIC G (∑ j ∈ Finset.range nsys, (W.Kc * G.D) ^ j)).A * Xs
+        + (W.linearIC G (∑ j ∈ Finset.range nsys, (W.Kc * G.D) ^ j)).B * Ws,
+       (W.linearIC G (∑ j ∈ Finset.range nsys, (W.Kc * G.D) ^ j)).C * Xs
+        + (W.linearIC G (∑ j ∈ Finset.range nsys, (W.Kc * G.D) ^ j)).D * Ws) := by
+  have hloop := staticIO_complete W G Xs Ws lvl nsys hacyc hb (W.M * Ws)
+  have hN := Wiring.nilpotent_of_levels (W.Kc * G.D) lvl nsys hacyc hb
+  have hE := geom_inverse (W.Kc * G.D) nsys hN
+  have hfix := staticLoop_fixed _ _ _ _ hloop
+  obtain ⟨h1, h2⟩ := linearize_closed_form W G Xs Ws _ hE _ hfix
+  unfold Wiring.eval
+  rw [hloop]
+  simp only [Except.map, h1, h2]
+
+/-- the discrete-time stepping loop over total maps: the `k`-th recorded state is the fold of the
+first `k` input samples, the `k`-th output is read there. -/
+theorem dtTrajLin_append {X Wt Z : Type*} (next : X → Wt → X) (outp : X → Wt → Z) (x : X)
+    (ws : List Wt) (w : Wt) :
+    dtTrajLin next outp x (ws ++ [w])
+      = dtTrajLin next outp x ws ++ [(ws.foldl next x, outp (ws.foldl next x) w)] := by
+  induction ws generalizing x with
+  | nil => simp [dtTrajLin]
+  | cons a ws ih => simp [dtTrajLin, ih]
+
+theorem dtTrajLin_length {X Wt Z : Type*} (next : X → Wt → X) (outp : X → Wt → Z) (x : X)
+    (ws : List Wt) : (dtTrajLin next outp x ws).length = ws.length := by
+  induction ws generalizing x with
+  | nil => simp [dtTrajLin]
+  | cons a ws ih => simp [dtTrajLin, ih]
+
+/-- if the step never raises and is given by `next` / `outp`, the run is the total one. -/
+theorem dtTraj_of_total {X Wt Z ε : Type*} (f : X → Wt → Except ε (X × Z)) (next : X → Wt → X)
+    (outp : X → Wt → Z) (hf : ∀ x w, f x w = .ok (next x w, outp x w)) (x : X) (ws : List Wt) :
+    dtTraj f x ws = .ok (dtTrajLin next outp x ws) := by
+  induction ws generalizing x with
+  | nil => simp [dtTraj, dtTrajLin]
+  | cons a ws ih => simp [dtTraj, dtTrajLin, hf, ih, Except.map]
+
+/-- a raising step ends the run with that error. -/
+theorem dtTraj_raises {X Wt Z ε : Type*} (f : X → Wt → Except ε (X × Z)) (x : X) (w : Wt)
+    (ws : List Wt) (e : ε) (h : f x w = .error e) : dtTraj f x (w :: ws) = .error e := by
+  simp [dtTraj, h]
+
+/-- `input_output_response` of a discrete-time interconnection of linear subsystems with acyclic
+feedthrough: the simulated states and outputs are those of `x⁺ = A x + B w`, `y = C x + D w` with
+the matrices of `linearIC` — from any initial state, integer-valued or not. -/
+theorem simulate_closed_form [DecidableEq (Matrix ι κ K)] (W : Wiring ι o w z K)
+    (G : SS σ ι o K) (nsys : Nat) (lvl : ι → Nat)
+    (hacyc : ∀ i j, (W.Kc * G.D) i j ≠ 0 → lvl j < lvl i) (hb : ∀ i, lvl i < nsys)
+    (x₀ : Matrix σ κ K) (ws : List (Matrix w κ K)) :
+    dtTraj (fun x w => W.eval G nsys x w) x₀ ws = .ok
+      (dtTrajLin
+        (fun x w => (W.linearIC G (∑ j ∈ Finset.range nsys, (W.Kc * G.D) ^ j)).A * x
+          + (W.linearIC G (∑ j ∈ Finset.range nsys, (W.Kc * G.D) ^ j)).B * w)
+        (fun x w => (W.linearIC G (∑ j ∈ Finset.range nsys, (W.Kc * G.D) ^ j)).C * x
+          + (W.linearIC G (∑ j ∈ Finset.range nsys, (W.Kc * G.D) ^ j)).D * w) x₀ ws) :=
+  dtTraj_of_total _ _ _ (fun x w => eval_complete W G nsys x w lvl hacyc hb) x₀ ws
+
+end evaluation
+
+/-! non-vacuity for Part 5: the sampled loop `x⁺ = x/2 + u`, `y = x`, `u = w - y/2` (one
+subsystem, one connection with gain `-1/2`), evaluated at the integer state `3`. -/
+def loopW : Wiring (Fin 1) (Fin 1) (Fin 1) (Fin 1) ℚ := ⟨!![-1/2], !![1], !![1], !![0]⟩
+
+def loopG : SS (Fin 1) (Fin 1) (Fin 1) ℚ := ⟨!![1/2], !![1], !![1], !![0]⟩
+
+example : ∀ i j : Fin 1, (loopW.Kc * loopG.D) i j ≠ 0 → (fun _ => 0 : Fin 1 → Nat) j < 0 := by
+  intro i j; fin_cases i; fin_cases j; simp [loopW, loopG]
+
+example : dtTrajLin (fun x w : ℚ => x / 4 + w) (fun x _ => x) 3 [1, 1, 1]
+    = [(3, 3), (7/4, 7/4), (23/16, 23/16)] := by
+  norm_num [dtTrajLin]
+
+example : dtTraj (ε := Err) (fun x w : Int => if x = 0 then .error .illPosed else .ok (x - w, x))
+    2 [1, 1, 1] = .error .illPosed := by decide
+
+example : toMat 1 2 ([(0, 0, (2 : ℚ))] ++ [(0, 1, 0)] ++ []) = toMat 1 2 ([(0, 0, 2)] ++ []) :=
+  toMat_zero_gain 1 2 _ _ _ (by simp)
 
 /-! non-vacuity on a concrete instance: `P` (input `u`, output `y`), `C` (inputs `e0`, `e1`,
 output `v`) — the failing input of the unrepaired code. -/
